@@ -50,36 +50,19 @@ theorem subslice_exact (len cap low : Int) (high max : Option Int) :
       · intro hh; exfalso; omega
     · intro _; simp
 
-theorem substring_exact_partial (len low high : Int) :
-    (substring len low (some high) = none ↔ ¬ GV.Spec.Checks.strSliceOk len low high) ∧
-    (GV.Spec.Checks.strSliceOk len low high → substring len low (some high) = some (high - low)) := by
+theorem substring_exact (len low : Int) (high : Option Int) :
+    (substring len low high = none ↔ ¬ GV.Spec.Checks.strSliceOk len low (high.getD len)) ∧
+    (GV.Spec.Checks.strSliceOk len low (high.getD len) → substring len low high = some (high.getD len - low)) := by
   unfold substring GV.Spec.Checks.strSliceOk
-  by_cases c : (low < 0 || high < low || high > len) = true
-  · simp only [c, if_true, true_iff]
+  generalize high.getD len = h
+  simp only []
+  split
+  · rename_i c
     simp only [Bool.or_eq_true, decide_eq_true_eq] at c
-    constructor <;> intro hh <;> omega
-  · simp only [c]
+    exact ⟨⟨fun _ => by omega, fun _ => rfl⟩, fun hh => by omega⟩
+  · rename_i c
     simp only [Bool.or_eq_true, decide_eq_true_eq] at c
-    constructor
-    · constructor
-      · intro hh; simp at hh
-      · intro hh; exfalso; omega
-    · intro _; simp
-
-/-- full statement for `s[low:]` on strings (`$substring(s, low)`, high undefined) — NOT claimed -/
-def substring_open_exact : Prop :=
-  ∀ len low : Int, substring len low none = none ↔ ¬ GV.Spec.Checks.strSliceOk len low len
-
-/-- `"abc"[5:]` must panic; `$substring("abc", 5)` compares `undefined < low`, `undefined > len` (both false) -/
-theorem substring_open_counterexample : ¬ substring_open_exact := by
-  intro h
-  have := (h 3 5).2 (by unfold GV.Spec.Checks.strSliceOk; omega)
-  simp [substring] at this
-
-theorem substring_open_partial (len low : Int) (hl : low ≤ len) :
-    substring len low none = none ↔ ¬ GV.Spec.Checks.strSliceOk len low len := by
-  unfold substring GV.Spec.Checks.strSliceOk
-  by_cases c : low < 0 <;> simp [c] <;> omega
+    exact ⟨⟨fun hh => by simp at hh, fun hh => by omega⟩, fun _ => rfl⟩
 
 theorem makeslice_exact (n : Int) (m : Option Int) :
     (makeSlice n m = none ↔ ¬ GV.Spec.Checks.makeOk n (m.getD n)) ∧
@@ -134,21 +117,9 @@ theorem send_exact (c : ChanState) :
 def toSpecChan : ChanState → GV.Spec.Checks.Chan
   | .nil => .nil | .open_ => .open_ | .closed => .closed
 
-/-- full statement for `close` — NOT claimed -/
-def close_exact : Prop :=
-  ∀ c : ChanState, closeChan c = none ↔ ¬ GV.Spec.Checks.closeOk (toSpecChan c)
-
-/-- `close(nilChan)` must panic; `$close` only tests `$closed`, which is false on `$chanNil` -/
-theorem close_counterexample : ¬ close_exact := by
-  intro h
-  have := (h .nil).2 (by simp [GV.Spec.Checks.closeOk, toSpecChan])
-  simp [closeChan] at this
-
-theorem close_exact_partial (c : ChanState) (hc : c ≠ .nil) :
+theorem close_exact (c : ChanState) :
     closeChan c = none ↔ ¬ GV.Spec.Checks.closeOk (toSpecChan c) := by
-  cases c <;> simp_all [closeChan, GV.Spec.Checks.closeOk, toSpecChan]
-
-example : ∃ c : ChanState, c ≠ .nil ∧ closeChan c = none := ⟨.closed, by decide, rfl⟩
+  cases c <;> simp [closeChan, GV.Spec.Checks.closeOk, toSpecChan]
 
 def toSpecIface : Iface → GV.Spec.Checks.Iface
   | .nil => .nil
@@ -164,32 +135,42 @@ theorem assert_exact (x : Iface) (t : Nat) :
     assertConcrete x t = GV.Spec.Checks.assertConcrete (toSpecIface x) t := by
   cases x <;> simp [assertConcrete, GV.Spec.Checks.assertConcrete, toSpecIface]
 
-/-- every check that is right, in one statement (the two wrong ones are `close_exact`, `substring_open_exact`) -/
-theorem checks_exact_partial :
+/-- every run-time check panics exactly when the Go specification says so, for all operand values -/
+theorem checks_exact :
     (∀ len i, indexCheck len i = none ↔ ¬ GV.Spec.Checks.indexOk len i) ∧
     (∀ len cap low high max, subslice len cap low high max = none ↔
         ¬ GV.Spec.Checks.sliceOk cap low (high.getD len) (max.getD cap)) ∧
-    (∀ len low high, substring len low (some high) = none ↔ ¬ GV.Spec.Checks.strSliceOk len low high) ∧
+    (∀ len low high, substring len low high = none ↔ ¬ GV.Spec.Checks.strSliceOk len low (high.getD len)) ∧
     (∀ n m, makeSlice n m = none ↔ ¬ GV.Spec.Checks.makeOk n (m.getD n)) ∧
     (∀ s a, sliceToArray s a = none ↔ ¬ GV.Spec.Checks.sliceToArrayOk s a) ∧
     (∀ b, mapStore b = none ↔ ¬ GV.Spec.Checks.mapStoreOk b) ∧
     (∀ x y, quoInt x y = none ↔ ¬ GV.Spec.Checks.divOk y) ∧
     (∀ x y, remInt x y = none ↔ ¬ GV.Spec.Checks.divOk y) ∧
     (∀ c, sendChan c = none ↔ ¬ GV.Spec.Checks.sendOk (toSpecChan c)) ∧
-    (∀ c, c ≠ .nil → (closeChan c = none ↔ ¬ GV.Spec.Checks.closeOk (toSpecChan c))) ∧
+    (∀ c, closeChan c = none ↔ ¬ GV.Spec.Checks.closeOk (toSpecChan c)) ∧
     (∀ a b, interfaceIsEqual a b = GV.Spec.Checks.ifaceEq (toSpecIface a) (toSpecIface b)) ∧
     (∀ x t, assertConcrete x t = GV.Spec.Checks.assertConcrete (toSpecIface x) t) :=
   ⟨fun l i => (index_exact l i).1, fun a b c d e => (subslice_exact a b c d e).1,
-   fun a b c => (substring_exact_partial a b c).1, fun n m => (makeslice_exact n m).1,
+   fun a b c => (substring_exact a b c).1, fun n m => (makeslice_exact n m).1,
    slice_to_array_exact, map_store_exact, fun x y => (quo_exact x y).1, fun x y => (rem_exact x y).1,
    fun c => by cases c <;> simp [sendChan, GV.Spec.Checks.sendOk, toSpecChan],
-   close_exact_partial, iface_eq_exact, assert_exact⟩
+   close_exact, iface_eq_exact, assert_exact⟩
 
-/-- the full statement, NOT claimed (false by `close_counterexample` / `substring_open_counterexample`) -/
-def checks_exact : Prop :=
-  close_exact ∧ substring_open_exact
+/-! ### repaired defects (theorems about the code before the `fix:` commits) -/
 
-theorem checks_exact_counterexample : ¬ checks_exact := fun h => close_counterexample h.1
+/-- before 878216e `close(nilChan)` did not panic -/
+theorem close_old_counterexample :
+    ¬ (∀ c : ChanState, closeChanOld c = none ↔ ¬ GV.Spec.Checks.closeOk (toSpecChan c)) := by
+  intro h
+  have := (h .nil).2 (by simp [GV.Spec.Checks.closeOk, toSpecChan])
+  simp [closeChanOld] at this
+
+/-- before the repair `"abc"[5:]` did not panic -/
+theorem substring_old_counterexample :
+    ¬ (∀ len low : Int, substringOld len low none = none ↔ ¬ GV.Spec.Checks.strSliceOk len low len) := by
+  intro h
+  have := (h 3 5).2 (by unfold GV.Spec.Checks.strSliceOk; omega)
+  simp [substringOld] at this
 
 open GV.Defer
 
